@@ -19,6 +19,7 @@ structure DSt where
   once : Bool := true
   dup : Bool := false
   lastInit : Nat := 0        -- thread count of the last `init` line of the case (0 = none yet)
+  internal : Bool := false   -- argv[1] = "internal": the backend whose scheduler drains everything at shutdown
 
 def foldAway (d : DSt) : DSt :=
   { d with ss := { tasks := [], uaf := d.ss.uaf },
@@ -56,6 +57,10 @@ def stepD (d : DSt) : List String → DSt × String
     match n.toNat?, nest.toNat? with
     | some n, some k => (schedMany (SCfg.reference d.workers) d (n * (1 + k)), "ok")
     | _, _ => (d, "bad-op")
+  | ["sched_lv", n] =>   -- n named closures, each handed to schedule() twice: 2n tasks
+    match n.toNat? with
+    | some n => (schedMany (SCfg.reference d.workers) d (2 * n), "ok")
+    | none => (d, "bad-op")
   | ["dep", n] =>
     -- a parent that waits for the child it scheduled: with >= 2 workers besides the caller an idle worker's pop of the
     -- queued child is enabled (schedule_pop_enabled), so the child runs while the parent is still busy
@@ -63,7 +68,8 @@ def stepD (d : DSt) : List String → DSt × String
   | ["leave", _n] =>
     -- the process exits with scheduled closures pending: the tasking system's static destruction neither crashes nor
     -- runs a closure twice (whether a pending closure still runs at exit is the backend's business)
-    (d, "exit=0 ran-twice=0")
+    -- (Internal backend: its scheduler shuts down by draining, so everything still runs — sched_quiescent_join)
+    (d, "exit=0 ran-twice=0 ran=" ++ (if d.internal then "all" else "-"))
   | ["wait_all"] =>
     waitAll (SCfg.reference d.workers) d
   | ["async", _kind, v] =>
@@ -73,6 +79,6 @@ def stepD (d : DSt) : List String → DSt × String
   | ["atask", _kind, _v, _us, seq, _dseed] => (d, atask seq)
   | _ => (d, "bad-op")
 
-def main (_args : List String) : IO UInt32 := do
-  Driver.run ({} : DSt) stepD
+def main (args : List String) : IO UInt32 := do
+  Driver.run ({ internal := args.head? == some "internal" } : DSt) stepD
   return 0
